@@ -14,7 +14,7 @@
  C02.set       Set never touches buckets, nodes or the count directly (algebra built from has / operator[] / enumeration)
 Binary-search correctness of Map::indexOf and hash quality are not decided."""
 import os
-import ir, q, rc, alias, cfg as cfgm
+import ir, q, rc, alias, bytesets, cfg as cfgm
 from ir import strip, strip_lv, const_val, T, pe, walk_expr, fn_exprs, AnalysisBroken
 from core import fwhere
 
@@ -226,39 +226,75 @@ def check_geometry(ctx, prog):
         rv = strip(rets[0]['e']) if rets else {}
         okk = shifts == [1, 2, 4, 8, 16] and len(ors) == 5 and len(dec) == 1 and rv.get('k') == 'bin' and rv.get('op') == '+' and const_val(rv['y']) == 1
         ctx.check(okk, 'C02.geometry', f['pq'], 'nextPoT:bit smearing', fwhere(f), 'n-1 smeared by 1,2,4,8,16 then +1', 'nextPoT is not the 32-bit round-up-to-power-of-two (shifts %s)' % shifts)
-    # rehash growth factor and mask
+    # rehash growth factor and mask: evaluated for several old table lengths L (a.length() bound to L, the new table's
+    # length() bound to the evaluated size), so hoisted locals and equivalent arithmetic forms are read through
     for f in hm_members(prog, 'rehash'):
         n += 1
         ctx.analysed(f)
         inst = f['q']
-        newsize = None
+        newtab = None
         for s_ in ir.walk_stmts(f['body']):
             if s_.get('k') == 'decl':
                 for v in s_['vars']:
                     tv = T(f, v['t'])
                     ini = strip(v.get('init') or {})
                     if tv.get('recp') == 'asl::Array' and ini.get('k') == 'construct' and ini.get('a'):
-                        newsize = (v, ini['a'][0])
-        if not newsize:
+                        newtab = (v, ini['a'][0])
+        if not newtab:
             ctx.undecided('C02.geometry', f['pq'], 'rehash:growth', fwhere(f), 'no new bucket array constructed')
             continue
-        v, e = newsize
-        e = strip(e)
-        factor = None
-        if e.get('k') == 'bin' and e.get('op') == '+' and const_val(e['y']) == skip:
-            m = strip(e['x'])
-            if m.get('k') == 'bin' and m.get('op') in ('*', '<<'):
-                inner = strip(m['x'])
-                fac = const_val(m['y'])
-                if inner.get('k') == 'bin' and inner.get('op') == '-' and const_val(inner['y']) == skip and fac is not None:
-                    factor = fac if m['op'] == '*' else (1 << fac)
-        ctx.check(pot(factor) and factor > 1, 'C02.geometry', f['pq'], 'rehash:growth', fwhere(f, v['l']), 'new size = (length - SKIP) * %s + SKIP' % factor,
-                  'rehash() grows the table to `%s`: not (length - SKIP) * 2^k + SKIP, so the new size is not a power of two and the mask loses buckets (%s)' % (pe(e), inst))
-        masks = [mask_shape(f, w) for w in fn_exprs(f) if w.get('k') == 'bin' and w.get('op') == '+']
-        masks = [m for m in masks if m]
-        ctx.check(len(masks) == 1 and masks[0][0] == skip and masks[0][1] == v['n'], 'C02.geometry', f['pq'], 'rehash:mask agrees with binOf', fwhere(f),
-                  'new bucket = (hash & (newtable.length - SKIP - 1)) + SKIP', 'rehash() places nodes with a mask that differs from binOf() applied to the new table (%s)' % inst)
-        ctx.evaluations += 2
+        tv_, size_e = newtab
+
+        def make_ev(L, newlen=None):
+            class Ev(bytesets.Evaluator):
+                def ev(self, e):
+                    if e is not None and e.get('k') == 'call' and (e.get('pq') or '') == 'asl::Array::length' and e.get('obj') is not None:
+                        o = strip(e['obj'])
+                        if o.get('k') == 'mem' and o.get('f') == 'a':
+                            return L
+                        if o.get('k') == 'var' and o.get('id') == tv_['id'] and newlen is not None:
+                            return newlen
+                    return bytesets.Evaluator.ev(self, e)
+            return Ev(prog, f)
+        # the bucket expression used to place nodes: index of the new table that contains a hash() call
+        idxs = []
+        for e in fn_exprs(f):
+            if e.get('k') == 'call' and e.get('op') == '[]' and e.get('obj') is not None and strip(e['obj']).get('id') == tv_['id'] and any(w.get('k') == 'call' and (w.get('pq') or '').split('::')[-1] == 'hash' for w in walk_expr(q.expand(f, e['a'][0]))):
+                idxs.append(q.expand(f, e['a'][0]))
+        try:
+            sizes = {}
+            for L in (skip + 4, skip + 256, skip + 2048):
+                sizes[L] = make_ev(L).ev(size_e)
+                ctx.evaluations += 1
+            ratios = set((sizes[L] - skip) / float(L - skip) for L in sizes)
+            factor = list(ratios)[0] if len(ratios) == 1 else None
+            okg = factor is not None and factor == int(factor) and pot(int(factor)) and factor > 1
+            ctx.check(okg, 'C02.geometry', f['pq'], 'rehash:growth', fwhere(f, tv_['l']), 'new size = (length - SKIP) * %s + SKIP' % (int(factor) if factor else '?'),
+                      'rehash() grows a table of 256 buckets to %s buckets: not (length - SKIP) * 2^k + SKIP, so the new size is not a power of two and the mask loses buckets (%s)' % (sizes[skip + 256] - skip, inst))
+            okm = bool(idxs)
+            why = 'no bucket expression with hash() indexes the new table'
+            for ix in idxs:
+                ix = strip(ix)
+                if not (ix.get('k') == 'bin' and ix.get('op') == '+'):
+                    okm, why = False, 'bucket expression `%s` is not (hash & mask) + SKIP' % pe(ix)
+                    break
+                a_, s2 = strip(ix['x']), ix['y']
+                if not (a_.get('k') == 'bin' and a_.get('op') == '&'):
+                    a_, s2 = strip(ix['y']), ix['x']
+                if not (a_.get('k') == 'bin' and a_.get('op') == '&'):
+                    okm, why = False, 'bucket expression `%s` is not (hash & mask) + SKIP' % pe(ix)
+                    break
+                h_, m_ = (a_['x'], a_['y']) if any(w.get('k') == 'call' and (w.get('pq') or '').split('::')[-1] == 'hash' for w in walk_expr(a_['x'])) else (a_['y'], a_['x'])
+                for L in sizes:
+                    mv = make_ev(L, sizes[L]).ev(m_)
+                    sv = make_ev(L, sizes[L]).ev(s2)
+                    ctx.evaluations += 2
+                    if mv != sizes[L] - skip - 1 or sv != skip:
+                        okm, why = False, 'for an old table of %d entries the new table has %d buckets but nodes are placed with mask %d and offset %d (binOf() uses mask %d, offset %d)' % (L, sizes[L] - skip, mv, sv, sizes[L] - skip - 1, skip)
+            ctx.check(okm, 'C02.geometry', f['pq'], 'rehash:mask agrees with binOf', fwhere(f), 'new bucket = (hash & (newlength - SKIP - 1)) + SKIP',
+                      'rehash() places nodes in buckets that binOf() will not look in: %s (%s)' % (why, inst))
+        except bytesets.Undecidable as ex:
+            ctx.undecided('C02.geometry', f['pq'], 'rehash:growth/mask', fwhere(f), 'size or mask expression not evaluable: %s' % ex)
     ctx.floor('C02.geometry', n, 12)
 
 
@@ -392,12 +428,19 @@ def check_map(ctx, prog):
             okk = True
             why = ''
             for e in ins:
-                pos = strip(e['a'][0])
+                pos = strip(q.expand(f, e['a'][0]))
                 # -i-1
+                def is_index(x):
+                    x = strip(x)
+                    return (x.get('k') == 'var' and x.get('id') in idx_vars) or (x.get('k') == 'call' and x.get('pq') == 'asl::Map::indexOf')
                 dec = pos.get('k') == 'bin' and pos.get('op') == '-' and const_val(pos['y']) == 1 and strip(pos['x']).get('k') == 'un' and strip(pos['x']).get('op') == '-' and \
-                    strip(strip(pos['x'])['e']).get('id') in idx_vars
-                guarded = any(kind in ('if', 'after') and strip(c).get('k') == 'bin' and strip(c).get('op') == '>=' and strip(strip(c)['x']).get('id') in idx_vars and const_val(strip(c)['y']) == 0 and pol is False
-                              for c, pol, kind in g.of(e))
+                    is_index(strip(pos['x'])['e'])
+                def absent_guard(c, pol):
+                    cc = strip(c)
+                    if cc.get('k') != 'bin' or const_val(cc['y']) != 0 or strip(cc['x']).get('id') not in idx_vars:
+                        return False
+                    return (cc.get('op') == '>=' and pol is False) or (cc.get('op') == '<' and pol is True)
+                guarded = any(kind in ('if', 'after') and absent_guard(c, pol) for c, pol, kind in g.of(e))
                 if not dec:
                     okk, why = False, 'insert position `%s` is not -i-1 with i = indexOf(key)' % pe(pos)
                 elif not guarded:
